@@ -1,1 +1,476 @@
 // harness bodies for h2 src/proto/streams/prioritize.rs (compiled in-crate as `verif_h`, feature "verif")
+//
+// Send-side step harnesses (C02, C16, C06, C01.split/reclaim, C20.window).
+//
+// World: one concrete stream record (the *target*) + a ghost aggregate `others` that
+// stands for the capacity assigned to all other streams.  Queue membership and the
+// kinds of queued frames are concrete per query; every integer is symbolic.
+//
+// Invariants (assumed on the pre-state, asserted on the post-state):
+//   J=  conn.available + target.available + others = conn.window_size,  conn.available >= 0,
+//       0 <= conn.window_size <= 2^31-1
+//   S2  0 <= target.available <= max(target.window, 0);  target.available <= requested
+//   S4  requested >= min(buffered, u32::MAX)
+//   S3  buffered = sum of remaining() over the DATA frames queued for the target
+//   Q1  owed => queued for capacity;  Q2  sendable head => queued for sending
+use super::*;
+use crate::proto::streams::buffer::verif_h as buf_h;
+use crate::proto::streams::counts::verif_h as counts_h;
+use crate::proto::streams::flow_control::verif_h as fc_h;
+use crate::proto::streams::state::verif_h as st_h;
+use crate::proto::streams::store::verif_h as store_h;
+use crate::proto::streams::verif_h::{cfg, cw, SymBuf};
+use std::task::Context;
+
+pub(crate) type F = Frame<SymBuf>;
+const MAXW: i64 = MAX_WINDOW_SIZE as i64;
+
+pub(crate) fn conn_flow(p: &Prioritize) -> (i32, i32) {
+    fc_h::get(&p.flow)
+}
+pub(crate) fn set_conn_flow(p: &mut Prioritize, w: i32, a: i32) {
+    fc_h::set(&mut p.flow, w, a);
+}
+pub(crate) fn set_max_buffer(p: &mut Prioritize, m: usize) {
+    p.max_buffer_size = m;
+}
+pub(crate) fn pending_send_empty(p: &Prioritize) -> bool {
+    store_h::queue_is_empty(&p.pending_send)
+}
+pub(crate) fn pending_capacity_empty(p: &Prioritize) -> bool {
+    store_h::queue_is_empty(&p.pending_capacity)
+}
+pub(crate) fn pending_open_empty(p: &Prioritize) -> bool {
+    store_h::queue_is_empty(&p.pending_open)
+}
+pub(crate) fn push_pending_send(p: &mut Prioritize, s: &mut store::Ptr) {
+    p.pending_send.push(s);
+}
+pub(crate) fn push_pending_capacity(p: &mut Prioritize, s: &mut store::Ptr) {
+    p.pending_capacity.push(s);
+}
+pub(crate) fn push_pending_open(p: &mut Prioritize, s: &mut store::Ptr) {
+    p.pending_open.push(s);
+}
+pub(crate) fn in_flight_is_nothing(p: &Prioritize) -> bool {
+    p.in_flight_data_frame == InFlightData::Nothing
+}
+pub(crate) fn in_flight_is_drop(p: &Prioritize) -> bool {
+    p.in_flight_data_frame == InFlightData::Drop
+}
+pub(crate) fn set_in_flight(p: &mut Prioritize, k: Option<store::Key>) {
+    p.in_flight_data_frame = match k {
+        Some(k) => InFlightData::DataFrame(k),
+        None => InFlightData::Nothing,
+    };
+}
+
+/// symbolic integers of the pre-state
+#[derive(Clone, Copy)]
+pub(crate) struct Pre {
+    pub cw: i32,
+    pub ca: i32,
+    pub others: i64,
+    pub w: i32,
+    pub a: i32,
+    pub req: u32,
+    pub buffered: usize,
+}
+
+/// the world (small values only: the real slab keeps records on the heap)
+pub(crate) struct World {
+    pub prio: Prioritize,
+    pub counts: Counts,
+    pub store: Store,
+    pub buffer: Buffer<F>,
+    pub key: store::Key,
+    pub task: Option<Waker>,
+}
+
+pub(crate) const ID: u32 = 1;
+
+/// One client-side stream, id 1, state given by `shape`/peers, counted, with a handle.
+pub(crate) fn world(state_shape: u8) -> World {
+    let c = cfg();
+    let prio = Prioritize::new(&c);
+    let mut counts = Counts::new(peer::Dyn::Client, &c);
+    let mut store = Store::new();
+    let buffer: Buffer<F> = buf_h::with_capacity(4);
+    let id = StreamId::from(ID);
+    let mut stream = Stream::new(id, 0, 0);
+    stream.state = st_h::state_of_shape(state_shape, id);
+    stream.ref_count = 1;
+    let key = store_h::insert_slab_only(&mut store, stream);
+    {
+        let mut ptr = store.resolve(key);
+        counts.inc_num_send_streams(&mut ptr);
+    }
+    World { prio, counts, store, buffer, key, task: None }
+}
+
+/// Writes a symbolic, invariant-satisfying integer pre-state in place and returns it.
+/// `buffered_is`: Some(x) pins buffered_send_data to the queued DATA total (S3).
+pub(crate) fn sym_pre(w: &mut World, buffered_is: Option<usize>) -> Pre {
+    let cwv: i32 = kani::any();
+    let ca: i32 = kani::any();
+    let others: i64 = kani::any();
+    let sw: i32 = kani::any();
+    let a: i32 = kani::any();
+    let req: u32 = kani::any();
+    let buffered: usize = match buffered_is {
+        Some(b) => b,
+        None => kani::any(),
+    };
+    // J=
+    kani::assume(cwv >= 0 && ca >= 0 && others >= 0 && others <= MAXW);
+    kani::assume(a >= 0);
+    kani::assume(ca as i64 + a as i64 + others == cwv as i64);
+    // S2
+    kani::assume(a as i64 <= if sw > 0 { sw as i64 } else { 0 });
+    kani::assume(a as i64 <= req as i64);
+    // S4
+    kani::assume(req as u64 >= if buffered as u64 > u32::MAX as u64 { u32::MAX as u64 } else { buffered as u64 });
+    kani::assume(buffered <= (1usize << 40));
+    set_conn_flow(&mut w.prio, cwv, ca);
+    let mut p = w.store.resolve(w.key);
+    fc_h::set(&mut p.send_flow, sw, a);
+    p.requested_send_capacity = req;
+    p.buffered_send_data = buffered;
+    Pre { cw: cwv, ca, others, w: sw, a, req, buffered }
+}
+
+pub(crate) struct Post {
+    pub cw: i32,
+    pub ca: i32,
+    pub w: i32,
+    pub a: i32,
+    pub req: u32,
+    pub buffered: usize,
+}
+pub(crate) fn post(w: &mut World) -> Post {
+    let (cwv, ca) = conn_flow(&w.prio);
+    let p = w.store.resolve(w.key);
+    let (sw, a) = fc_h::get(&p.send_flow);
+    Post { cw: cwv, ca, w: sw, a, req: p.requested_send_capacity, buffered: p.buffered_send_data }
+}
+
+/// J= and S2/S4 on the post-state; `others` is untouched by construction.
+pub(crate) fn assert_inv(pre: &Pre, q: &Post) {
+    assert!(q.ca >= 0, "J: connection available went negative");
+    assert!(q.cw >= 0 && q.cw as i64 <= MAXW, "J: connection window out of range");
+    assert!(q.ca as i64 + q.a as i64 + pre.others == q.cw as i64,
+        "J=: assigned + unassigned capacity != connection window (capacity leaked or invented)");
+    assert!(q.a >= 0, "S2: stream available went negative");
+    assert!(q.a as i64 <= if q.w > 0 { q.w as i64 } else { 0 }, "S2: stream holds more capacity than its window");
+    assert!(q.a as i64 <= q.req as i64, "S2: assigned capacity above the requested capacity");
+    assert!(q.req as u64 >= if q.buffered as u64 > u32::MAX as u64 { u32::MAX as u64 } else { q.buffered as u64 },
+        "S4: requested capacity below the buffered data");
+}
+
+/// Q1 (C06): the stream still wants capacity that its own window allows => it is
+/// queued for connection capacity (nothing else will ever re-examine it).
+pub(crate) fn assert_q1(w: &mut World) {
+    let p = w.store.resolve(w.key);
+    let (sw, a) = fc_h::get(&p.send_flow);
+    let wants = (a as i64) < p.requested_send_capacity as i64;
+    let room = sw >= 0 && sw > a;
+    let active = p.state.is_send_streaming() || p.buffered_send_data > 0;
+    if wants && room && active && !p.is_pending_open {
+        assert!(p.is_pending_send_capacity, "Q1: stream owed capacity but not queued in pending_capacity (lost wakeup)");
+    }
+}
+
+/// Q1 on the pre-state: a stream that is *not* queued for capacity does not satisfy
+/// Q1's antecedent (for a send-streaming, not pending-open target).
+pub(crate) fn assume_q1_unqueued(pre: &Pre) {
+    let wants = (pre.a as i64) < pre.req as i64;
+    let room = pre.w >= 0 && pre.w > pre.a;
+    kani::assume(!(wants && room));
+}
+
+fn forget(w: World) {
+    std::mem::forget(w);
+}
+
+// ---------------------------------------------------------------------------
+// reserve_capacity
+// ---------------------------------------------------------------------------
+fn step_reserve_capacity(queued_cap: bool) {
+    let mut w = world(3);
+    {
+        let mut p = w.store.resolve(w.key);
+        st_h::set_inner_open_streaming(&mut p.state);
+        if queued_cap {
+            push_pending_capacity(&mut w.prio, &mut p);
+        }
+    }
+    let pre = sym_pre(&mut w, None);
+    if !queued_cap {
+        assume_q1_unqueued(&pre);
+    }
+    let cap: WindowSize = kani::any();
+    {
+        let mut p = w.store.resolve(w.key);
+        w.prio.reserve_capacity(cap, &mut p, &mut w.counts);
+    }
+    let q = post(&mut w);
+    assert_inv(&pre, &q);
+    assert_q1(&mut w);
+    assert!(q.w == pre.w && q.cw == pre.cw, "reserve_capacity changed a window");
+    assert!(q.buffered == pre.buffered);
+    let want = cap as u64 + pre.buffered as u64;
+    // requested follows the request (saturating at u32::MAX)
+    assert!(q.req as u64 == if want > u32::MAX as u64 { u32::MAX as u64 } else { want }, "requested_send_capacity");
+    // lowering returns the excess to the connection at once
+    if want < pre.a as u64 {
+        assert!(q.a as u64 == want, "capacity above the lowered request was not returned");
+    }
+    // the user-visible capacity never exceeds what is assigned and usable
+    let p = w.store.resolve(w.key);
+    let usable = p.capacity(1 << 20);
+    assert!(usable as i64 <= q.a as i64);
+    kani::cover!(q.a > pre.a, "granted");
+    kani::cover!(q.a < pre.a, "returned");
+    kani::cover!(true, "end");
+    forget(w);
+}
+pub fn c02_step_reserve_capacity() { step_reserve_capacity(false) }
+pub fn c02_step_reserve_capacity_queued() { step_reserve_capacity(true) }
+
+// ---------------------------------------------------------------------------
+// send_data (eos = false): data is buffered, capacity requested, nothing leaves
+// ---------------------------------------------------------------------------
+pub fn c02_step_send_data() {
+    let mut w = world(3);
+    {
+        let mut p = w.store.resolve(w.key);
+        st_h::set_inner_open_streaming(&mut p.state);
+    }
+    let pre = sym_pre(&mut w, Some(0));
+    assume_q1_unqueued(&pre);
+    let sz: usize = kani::any();
+    let frame = frame::Data::new(StreamId::from(ID), SymBuf { off: 0, rem: sz });
+    let r = {
+        let mut p = w.store.resolve(w.key);
+        w.prio.send_data(frame, &mut w.buffer, &mut p, &mut w.counts, &mut w.task)
+    };
+    let q = post(&mut w);
+    match r {
+        Ok(()) => {
+            assert!(sz as u64 <= MAXW as u64, "send_data accepted a payload above 2^31-1");
+            assert!(q.buffered == sz, "S3: buffered_send_data != queued bytes");
+            assert_inv(&pre, &q);
+            assert_q1(&mut w);
+            assert!(q.cw == pre.cw && q.w == pre.w, "send_data changed a window (DATA leaves only through pop_frame)");
+            let p = w.store.resolve(w.key);
+            assert!(!p.pending_send.is_empty(), "frame not queued");
+            // Q2: sendable now => scheduled
+            if q.a > 0 || sz == 0 {
+                assert!(p.is_pending_send, "Q2: sendable DATA queued but stream not scheduled");
+            }
+        }
+        Err(_) => {
+            assert!(sz as u64 > MAXW as u64, "send_data refused a legal payload on an open stream");
+            assert!(q.buffered == pre.buffered && q.a == pre.a && q.ca == pre.ca, "state changed on Err");
+        }
+    }
+    kani::cover!(r.is_ok() && q.a > pre.a, "capacity_assigned");
+    kani::cover!(r.is_ok() && q.a == 0 && sz > 0, "blocked");
+    kani::cover!(true, "end");
+    forget(w);
+}
+
+// ---------------------------------------------------------------------------
+// WINDOW_UPDATE on the stream / on the connection
+// ---------------------------------------------------------------------------
+fn step_recv_stream_window_update(queued_cap: bool) {
+    let mut w = world(3);
+    {
+        let mut p = w.store.resolve(w.key);
+        st_h::set_inner_open_streaming(&mut p.state);
+        if queued_cap {
+            push_pending_capacity(&mut w.prio, &mut p);
+        }
+    }
+    let pre = sym_pre(&mut w, None);
+    if !queued_cap {
+        assume_q1_unqueued(&pre);
+    }
+    let inc: u32 = kani::any();
+    kani::assume(inc >= 1 && inc as i64 <= MAXW);
+    let r = {
+        let mut p = w.store.resolve(w.key);
+        w.prio.recv_stream_window_update(inc, &mut p)
+    };
+    let q = post(&mut w);
+    match r {
+        Ok(()) => {
+            assert!(q.w as i64 == pre.w as i64 + inc as i64, "stream window != old + increment");
+            assert!(q.cw == pre.cw, "stream WINDOW_UPDATE changed the connection window");
+            assert_inv(&pre, &q);
+            assert_q1(&mut w);
+            // the waiting stream receives min(conn available, wanted, window room)
+            let wanted = pre.req as i64 - pre.a as i64;
+            let room = if q.w > 0 { q.w as i64 - pre.a as i64 } else { 0 };
+            let mut give = if wanted < room { wanted } else { room };
+            if give > pre.ca as i64 { give = pre.ca as i64; }
+            if give < 0 { give = 0; }
+            assert!(q.a as i64 == pre.a as i64 + give, "C16.reach: capacity handed to the waiting stream");
+        }
+        Err(e) => {
+            assert!(pre.w as i64 + inc as i64 > MAXW, "legal stream WINDOW_UPDATE rejected");
+            assert!(e == Reason::FLOW_CONTROL_ERROR, "window overflow must be FLOW_CONTROL_ERROR");
+            assert!(q.w == pre.w && q.a == pre.a && q.ca == pre.ca);
+        }
+    }
+    kani::cover!(r.is_ok() && q.a > pre.a, "granted");
+    kani::cover!(r.is_err(), "overflow");
+    kani::cover!(r.is_ok() && pre.w < 0, "from_negative_window");
+    kani::cover!(true, "end");
+    forget(w);
+}
+pub fn c02_step_recv_stream_window_update() { step_recv_stream_window_update(false) }
+pub fn c02_step_recv_stream_window_update_queued() { step_recv_stream_window_update(true) }
+
+fn step_recv_connection_window_update(queued_cap: bool) {
+    let mut w = world(3);
+    {
+        let mut p = w.store.resolve(w.key);
+        st_h::set_inner_open_streaming(&mut p.state);
+        if queued_cap {
+            push_pending_capacity(&mut w.prio, &mut p);
+        }
+    }
+    let pre = sym_pre(&mut w, None);
+    if !queued_cap {
+        assume_q1_unqueued(&pre);
+    }
+    let inc: u32 = kani::any();
+    kani::assume(inc >= 1 && inc as i64 <= MAXW);
+    let r = w.prio.recv_connection_window_update(inc, &mut w.store, &mut w.counts);
+    let q = post(&mut w);
+    match r {
+        Ok(()) => {
+            assert!(q.cw as i64 == pre.cw as i64 + inc as i64, "connection window != old + increment");
+            assert!(q.w == pre.w, "connection WINDOW_UPDATE changed a stream window");
+            assert_inv(&pre, &q);
+            assert_q1(&mut w);
+            if queued_cap {
+                // C16.reach: the waiting stream gets min(conn available, wanted, window room)
+                let wanted = pre.req as i64 - pre.a as i64;
+                let room = if pre.w > 0 { pre.w as i64 - pre.a as i64 } else { 0 };
+                let mut give = if wanted < room { wanted } else { room };
+                let have = pre.ca as i64 + inc as i64;
+                if give > have { give = have; }
+                if give < 0 { give = 0; }
+                assert!(q.a as i64 == pre.a as i64 + give, "C16.reach: returned/new capacity did not reach the waiter");
+            } else {
+                assert!(q.a == pre.a, "an unqueued stream was given capacity");
+            }
+        }
+        Err(e) => {
+            assert!(pre.cw as i64 + inc as i64 > MAXW, "legal connection WINDOW_UPDATE rejected");
+            assert!(e == Reason::FLOW_CONTROL_ERROR);
+            assert!(q.cw == pre.cw && q.ca == pre.ca && q.a == pre.a);
+        }
+    }
+    kani::cover!(r.is_ok() && q.a > pre.a, "granted");
+    kani::cover!(r.is_err(), "overflow");
+    kani::cover!(true, "end");
+    forget(w);
+}
+pub fn c02_step_recv_connection_window_update() { step_recv_connection_window_update(false) }
+pub fn c02_step_recv_connection_window_update_queued() { step_recv_connection_window_update(true) }
+
+// ---------------------------------------------------------------------------
+// reclaim_all_capacity / reclaim_reserved_capacity (reset, handle drop)
+// ---------------------------------------------------------------------------
+fn step_reclaim(all: bool, state_shape: u8) {
+    let mut w = world(state_shape);
+    let pre = sym_pre(&mut w, None);
+    {
+        let mut p = w.store.resolve(w.key);
+        if all {
+            w.prio.reclaim_all_capacity(&mut p, &mut w.counts);
+        } else {
+            w.prio.reclaim_reserved_capacity(&mut p, &mut w.counts);
+        }
+    }
+    let q = post(&mut w);
+    // J= must hold; S2's `a <= req` too
+    assert_inv(&pre, &q);
+    assert!(q.cw == pre.cw && q.w == pre.w);
+    if all {
+        assert!(q.a == 0, "reclaim_all_capacity left capacity on the stream");
+        assert!(q.ca as i64 == pre.ca as i64 + pre.a as i64, "C16: capacity of a reset stream did not return to the connection");
+    } else {
+        let keep = if (pre.a as u64) < pre.buffered as u64 { pre.a as u64 } else { pre.buffered as u64 };
+        assert!(q.a as u64 == keep, "reclaim_reserved_capacity must keep exactly the buffered part");
+    }
+    kani::cover!(q.ca > pre.ca, "returned");
+    kani::cover!(true, "end");
+    forget(w);
+}
+pub fn c16_step_reclaim_all_open() { step_reclaim(true, 3) }
+pub fn c16_step_reclaim_all_closed() { step_reclaim(true, 7) }
+pub fn c16_step_reclaim_reserved_open() { step_reclaim(false, 3) }
+
+// ---------------------------------------------------------------------------
+// Stream::capacity / assign_capacity / send_data (C16.usable, C06.cap)
+// ---------------------------------------------------------------------------
+pub fn c16_usable_capacity() {
+    let mut s = Stream::new(StreamId::from(ID), 0, 0);
+    let a: i32 = kani::any();
+    let wv: i32 = kani::any();
+    kani::assume(a >= 0 && a as i64 <= if wv > 0 { wv as i64 } else { 0 });
+    fc_h::set(&mut s.send_flow, wv, a);
+    let buffered: usize = kani::any();
+    s.buffered_send_data = buffered;
+    let max_buf: usize = kani::any();
+    let c = s.capacity(max_buf);
+    let m = if (a as usize) < max_buf { a as usize } else { max_buf };
+    let want = if m > buffered { m - buffered } else { 0 };
+    assert!(c as usize == want, "capacity() != min(available, max_buffer) - buffered");
+    // what capacity() promises is covered by the stream's own window without a further grant
+    assert!(c as i64 + (if buffered < m { buffered } else { m }) as i64 <= if wv > 0 { wv as i64 } else { 0 },
+        "C16.usable: reported capacity exceeds the stream window");
+    kani::cover!(c > 0, "positive");
+    kani::cover!(true, "end");
+    std::mem::forget(s);
+}
+
+pub fn c06_cap_assign_notifies() {
+    let mut s = Stream::new(StreamId::from(ID), 0, 0);
+    let a: i32 = kani::any();
+    let wv: i32 = kani::any();
+    kani::assume(a >= 0 && wv >= 0 && a <= wv);
+    fc_h::set(&mut s.send_flow, wv, a);
+    let buffered: usize = kani::any();
+    s.buffered_send_data = buffered;
+    let max_buf: usize = kani::any();
+    let add: u32 = kani::any();
+    kani::assume(add >= 1 && add as i64 + a as i64 <= wv as i64);
+    let waiting: bool = kani::any();
+    if waiting {
+        let wk = cw::waker(0);
+        let cx = Context::from_waker(&wk);
+        s.wait_send(&cx);
+        std::mem::forget(wk);
+    }
+    let before = s.capacity(max_buf);
+    let wakes0 = cw::wakes(0);
+    s.assign_capacity(add, max_buf);
+    let after = s.capacity(max_buf);
+    let (_, a2) = fc_h::get(&s.send_flow);
+    assert!(a2 as i64 == a as i64 + add as i64);
+    if after > before {
+        assert!(s.send_capacity_inc, "C06.cap: user-visible capacity rose but the increase flag is not set");
+        if waiting {
+            assert!(cw::wakes(0) == wakes0 + 1, "C06.cap: capacity waiter not woken");
+        }
+    }
+    kani::cover!(after > before && waiting, "woken");
+    kani::cover!(after == before, "hidden_by_buffer_limit");
+    kani::cover!(true, "end");
+    std::mem::forget(s);
+}
